@@ -46,8 +46,9 @@ type vhForest struct {
 
 // vhBuild builds a forest of k blocks with symbolic views and parent links; views grow along
 // parent links (the property's premise). maxView > 0 bounds views (needed where code loops over views).
-func vhBuild(k int, maxView int) *vhForest {
+func vhBuild(k int, maxView int, mask int) *vhForest {
 	f := &vhForest{k: k}
+	viewPad := make([]hotstuff.View, k+2)
 	gen := hotstuff.GetGenesis()
 	unknown := hotstuff.VHash(100)
 	for i := 0; i < k; i++ {
@@ -58,22 +59,21 @@ func vhBuild(k int, maxView int) *vhForest {
 		if maxView > 0 {
 			vassume(v <= hotstuff.View(maxView))
 		}
-		var ph hotstuff.Hash
-		switch {
-		case p == -1:
-			ph = gen.Hash()
-		case p == k:
-			ph = unknown
-		default:
-			ph = f.blocks[p].Hash()
-			vassume(v > f.view[p])
+		cand := make([]hotstuff.Hash, k+2)
+		cand[0] = gen.Hash()
+		for j := 0; j < i; j++ {
+			cand[j+1] = f.blocks[j].Hash()
 		}
+		cand[k+1] = unknown
+		ph := cand[p+1]
+		vassume(!(p >= 0 && p < k) || v > viewPad[p+1])
+		viewPad[i+1] = v
 		b := hotstuff.VMakeBlock(hotstuff.VHash(i), ph, hotstuff.QuorumCert{}, &clientpb.Batch{}, v, 1)
 		f.blocks = append(f.blocks, b)
 		f.parent = append(f.parent, p)
 		f.view = append(f.view, v)
-		f.stored = append(f.stored, nondetBool("stored"))
-		f.fetch = append(f.fetch, nondetBool("fetchable"))
+		f.stored = append(f.stored, mask&(1<<uint(i)) != 0)
+		f.fetch = append(f.fetch, mask&(1<<uint(k+i)) != 0)
 	}
 	f.snd = &vhSender{blocks: f.blocks, fetchable: f.fetch}
 	el := eventloop.New(logging.VNop(), 10)
@@ -116,8 +116,8 @@ func (f *vhForest) blockAt(i int) *hotstuff.Block {
 }
 
 // C13(a): content addressing and idempotent store.
-func VH_C13_store_get(k int) {
-	f := vhBuild(k, 0)
+func VH_C13_store_get(k int, mask int) {
+	f := vhBuild(k, 0, mask)
 	i := nondetInt("query")
 	vassume(i >= 0 && i < k)
 	h := f.blocks[i].Hash()
@@ -153,8 +153,8 @@ func VH_C13_store_get(k int) {
 }
 
 // C13(b): Extends(b, t) <=> t is b or lies on b's parent chain.
-func VH_C13_extends(k int) {
-	f := vhBuild(k, 0)
+func VH_C13_extends(k int, mask int) {
+	f := vhBuild(k, 0, mask)
 	b := nondetInt("b")
 	t := nondetInt("t")
 	vassume(b >= 0 && b < k && t >= -1 && t < k)
@@ -179,9 +179,8 @@ func boolU(b bool) uint64 {
 
 // C13(c): pruning after a commit. All blocks stored; commit t1 then t2 (t1 on chain(t2)).
 func VH_C13_prune(k int, maxView int) {
-	f := vhBuild(k, maxView)
+	f := vhBuild(k, maxView, 1<<uint(k)-1)
 	for i := 0; i < k; i++ {
-		vassume(f.stored[i])
 		vassume(f.parent[i] != k)
 	}
 	t1 := nondetInt("t1")
